@@ -47,6 +47,8 @@ Winner(T, cx, dir) ==
       ELSE IF fstrat # <<"#nostrat">> /\ Supplies(fstrat, dir) THEN fstrat
       ELSE IF good = {} THEN <<"#builtin">>
       ELSE cands[CHOOSE n \in good : \A m \in good : n <= m]
+\* named tuples: the field's serialize / deserialize engine ("as_dict" | "as_list") beats namedtuple_as_dict in effect for the class
+NtAsDict(cx, dir) == LET e == GetOpt(cx.fopt, dir, "") IN IF e = "as_dict" THEN TRUE ELSE IF e = "as_list" THEN FALSE ELSE cx.nt_dict
 \* descending into collection elements drops the field-level options (they concern the field's own type)
 ElemCx(cx) == [cx EXCEPT !.fopt = <<>>]
 
@@ -208,7 +210,7 @@ PackDC(T, cx, v0) ==
       od   == EffOpt(T, cx, "omit_default")
       ba   == EffOpt(T, cx, "by_alias")
       ncx0 == NestCx(T, cx)
-      ncx  == [ncx0 EXCEPT !.levels = ClassLevels(T, cx), !.nocopy = ClassNoCopy(T, cx)]
+      ncx  == [ncx0 EXCEPT !.levels = ClassLevels(T, cx), !.nocopy = ClassNoCopy(T, cx), !.nt_dict = EffOpt(T, cx, "namedtuple_as_dict")]
       fcx(i) == [ncx EXCEPT !.fopt = FOpts(fs[i])]
       keep(i) == /\ GetOpt(FOpts(fs[i]), "ser", "") # "omit"
                  /\ ~(on /\ IsNone(vals[i]))
@@ -253,7 +255,7 @@ PackB(T, cx, v) ==
     [] T[1] = "counter" -> Dct(PackPairs(T[2], <<"int">>, cx, v[2]))
     [] T[1] = "chainmap" -> L([i \in DOMAIN v[2] |-> Dct(PackPairs(T[2], T[3], cx, v[2][i][2]))])
     [] T[1] = "ntuple" ->      \* <<"ntuple", name, fields>>, value <<"nt", name, items>>
-         IF cx.nt_dict THEN Dct([i \in DOMAIN T[3] |-> <<S(T[3][i][1]), Pack(T[3][i][2], ElemCx(cx), v[3][i])>>])
+         IF NtAsDict(cx, "ser") THEN Dct([i \in DOMAIN T[3] |-> <<S(T[3][i][1]), Pack(T[3][i][2], ElemCx(cx), v[3][i])>>])
          ELSE L([i \in DOMAIN T[3] |-> Pack(T[3][i][2], ElemCx(cx), v[3][i])])
     [] T[1] = "tdict" ->       \* <<"tdict", name, fields>>  field = <<key, T, required>>; value = plain dict
          LET present == SelectSeq([i \in DOMAIN T[3] |-> i], LAMBDA i : T[3][i][3] /\ PairsHas(v[2], S(T[3][i][1])))
